@@ -20,10 +20,10 @@ RULE = (
     "content trees over slots {/d/f, '/d/g h', /é/h, /l} with entry kinds {A (hardlink group), B (same inode number, other "
     "device), C (set-uid, own group), symlink to file/dir/dangling, fifo, empty dir} x for every touched slot every live "
     "pre-state {absent, file hardlinked to a bystander, file + unrelated '#new' sibling, symlink to file, symlink to dir, "
-    "dangling symlink, fifo, directory} x parent directory pre-state {absent, directory with odd mode/owner and an "
+    "dangling symlink, fifo, directory, directory in which the symlink entry's target resolves to a directory (the overlap merge_contents tolerates)} x parent directory pre-state {absent, directory with odd mode/owner and an "
     "unrelated child, symlink to a directory elsewhere, dangling symlink, regular file} x {parents listed, parents "
     "omitted} x {explicit offset, locations prefixed and offset None, offset directory missing} (x contents order in "
-    "thorough). Oracle: after a merge with no PMS-forbidden overlap every entry is present with kind, data, target, "
+    "thorough). Oracle: after a merge that returns normally every entry that is not itself part of a PMS-forbidden overlap is present with kind, data, target, "
     "mtime, mode, owner; same-inode sources share an inode; pre-existing directories keep their mode; every path outside "
     "the contents set (bystanders, unrelated children, symlink targets, their hardlink groups) is bit-identical; no "
     "'#new' temporary remains. A class is a measured (entry kind over observed live kind -> observed result) transition "
@@ -35,7 +35,8 @@ ASSUMPTIONS = [
     "Excl: the mtime and mode of symlink entries are not compared (ensure_perms deliberately never applies them; Linux symlinks have no mode) -- their owner and target are",
     "Excl: overlaps PMS forbids (a directory entry over a live non-directory other than a symlink to a directory or a dangling symlink, "
     "a non-directory entry over a live directory, parents omitted while the live parent is a file/dangling symlink): merge_contents may refuse "
-    "or skip; only the 'nothing outside the contents set changes' clause is demanded there",
+    "or skip: the overlapping entry itself (and entries below an overlapping directory) is not judged, the 'nothing outside the contents set changes' clause always is, "
+    "and when merge_contents returns normally despite the overlap (symlink entry over a real directory whose target resolves to a directory) every other entry is judged in full",
     "Excl: for a directory entry whose live location is a symlink to a directory, the symlink's own owner and the target directory's owner are not compared "
     "(kind and permissions of the target directory are); the statement only speaks of permissions",
     "a path below a live symlinked directory counts as inside the contents set at the location the kernel resolves the entry to",
@@ -45,15 +46,17 @@ ASSUMPTIONS = [
 ]
 TIME_CAP = {"thorough": 3600}  # safety net on a shared machine; a capped run is reported as non-exhaustive
 BOUNDS = {
-    "quick": "all 1-entry trees (7 kinds + dir, 8 live states); 2-entry trees on slot pairs F-G, F-H, F-L, H-L over kinds {A,B,C,sd,ff,dir} x full product of 7 live states "
-    "(no dangling) per touched slot and 5 parent states; x listed/omitted x explicit-offset/prefixed (+ missing offset dir)",
-    "thorough": "all trees with <= 2 entries (7 kinds + dir) x full product of 8 live states x both contents orders; all 3-entry trees over kinds {A,B,C,sd,ff,dir} x live states "
-    "{absent,file,file+stale,symd,dir}; x 5 parent states x listed/omitted x explicit-offset/prefixed (+ missing offset dir)",
+    "quick": "all 1-entry trees (7 kinds + dir, 8 live states); 2-entry trees on slot pairs F-G, F-H, F-L, H-L over kinds {A,B,C,sd,ff,dir} x full product of 8 live states "
+    "(no dangling) per touched slot and 5 parent states; 3-entry trees {same-inode pair + symlink at each contents position} on F-G-L for A and C and F-G-H (middle) x live {absent,file,file+stale,symd,dirx}; x listed/omitted x explicit-offset/prefixed (+ missing offset dir)",
+    "thorough": "all trees with <= 2 entries (7 kinds + dir) x full product of 9 live states x both contents orders; all 3-entry trees over kinds {A,B,C,sd,ff,dir} x live states "
+    "{absent,file,file+stale,symd,dirx}; x 5 parent states x listed/omitted x explicit-offset/prefixed (+ missing offset dir)",
 }
 
-NONDIR_STATES = [None, "file", "file+stale", "symf", "symd", "dang", "fifo", "dir"]
-NONDIR_STATES_Q2 = [None, "file", "file+stale", "symf", "symd", "fifo", "dir"]
-NONDIR_STATES_3 = [None, "file", "file+stale", "symd", "dir"]
+NONDIR_STATES = [None, "file", "file+stale", "symf", "symd", "dang", "fifo", "dir", "dirx"]
+NONDIR_STATES_Q2 = [None, "file", "file+stale", "symf", "symd", "fifo", "dir", "dirx"]
+NONDIR_STATES_3 = [None, "file", "file+stale", "symd", "dirx"]  # dirx behaves as dir for every non-symlink entry
+# quick 3-entry family: a same-inode pair and one symlink entry, the symlink at each position of the contents order
+TRIPLES_Q = [(("F", "G", "L"), pos, k) for pos in range(3) for k in ("A", "C")] + [(("F", "G", "H"), 1, "A")]
 DIR_STATES = [None, "dir", "lnk", "dang", "file"]
 KINDS_ALL = ["A", "B", "C", "sf", "sd", "sx", "ff"]
 KINDS_5 = ["A", "B", "C", "sd", "ff"]
@@ -71,6 +74,9 @@ def trees(tier):
             (2, KINDS_ALL, NONDIR_STATES, ["asc", "desc"], None),
             (3, KINDS_5, NONDIR_STATES_3, ["asc"], None),
         ]
+    if tier == "quick":
+        for slots, pos, k in TRIPLES_Q:
+            out.append(({s: ("sd" if i == pos else k) for i, s in enumerate(slots)}, NONDIR_STATES_3, ["asc"]))
     for n, kinds, states, orders, only in plan:
         for slots in itertools.combinations(ms.NONDIR_SLOTS, n):
             if only is not None and slots not in only:
@@ -140,18 +146,22 @@ def judge(scn, base, have_src=False):
     after = fsnap.snapshot(dst)
     msgs = ms.frame_violations(scn, an, before, after)
     classes = []
-    if an["conflict"]:
-        classes.append("outcome:forbidden-overlap:" + (type(exc).__name__ if exc is not None else "returned"))
+    if an["conflict"] and exc is not None:
+        classes.append("outcome:forbidden-overlap:" + type(exc).__name__)
     elif exc is not None:
         msgs.insert(0, f"merge_contents raised {type(exc).__name__}: {exc} although nothing forbids this merge".replace(dst, "<root>"))
         classes.append("outcome:unexpected-" + type(exc).__name__)
     else:
+        # a normal return: every entry that is not itself part of a forbidden overlap must be placed in full
         if ret is not True:
             msgs.append(f"merge_contents returned {ret!r}")
-        msgs = ms.placed_violations(scn, dst) + msgs
-        classes.append("outcome:merged")
+        msgs = ms.placed_violations(scn, dst, an["skip"]) + msgs
+        classes.append("outcome:forbidden-overlap:tolerated-and-continued" if an["conflict"] else "outcome:merged")
         # measured transitions
         for slot, kind in scn["tree"].items():
+            if slot in an["skip"]:
+                classes.append(f"{ms.KIND[kind]['kind']}:over-directory-skipped")
+                continue
             rel = ms.PATH[slot]
             par = ms.PARENT[slot]
             real = (ms.LNKT[par] + "/" + os.path.basename(rel)) if par and scn["pre"].get(par) == "lnk" else rel
@@ -163,6 +173,8 @@ def judge(scn, base, have_src=False):
                 f"{ms.KIND[kind]['kind']}:{b.kind if b else 'absent'}->{a.kind if a else 'absent'}" + ("+hardlinked" if shared else "") + ("/via-symlinked-dir" if real != rel else "")
             )
         for ds in ms.used_dirs(scn):
+            if ds in an["skip"]:
+                continue
             b, a = before.get(ms.PATH[ds]), after.get(ms.PATH[ds])
             classes.append(f"parent-{scn['dirs']}:{b.kind if b else 'absent'}->{a.kind if a else 'absent'}")
     return msgs, classes
